@@ -22,6 +22,7 @@ META = {
         "asymptote/monotonicity slacks derive from that residual through n=cg/c>=1/2: deep 2.1e-3, shallow 2.1e-3, depth-monotonicity 5e-3",
         "group velocity compared with the analytic derivative (1/2+kd/sinh 2kd)*omega(k)/k at the SAME k, 2e-3 relative",
         "domain: omega in [3e-3,50], d in [1e-2,1e4] or inf; float inputs",
+        "spectrum wiring is asserted for the object as built and again after its per-point depths were reassigned in place (spectrum['depth'] = ..., dataset['depth'] = ...): the arrays are functions of the current depths",
     ],
 }
 
@@ -197,25 +198,45 @@ def run_spectrum(case):
     f = a["f"]
     shape = a["shape"]
     nf = len(f)
+    n = a["n"]
+    w = (2 * np.pi * f).tolist()
+
+    def verify(dep, stage):
+        k = np.asarray(spec.wavenumber.values)
+        require(k.shape == tuple(shape) + (nf,), "wavenumber_shape", f"{stage}: {k.shape} vs {tuple(shape) + (nf,)}")
+        k2 = k.reshape(n, nf)
+        wl = np.asarray(spec.wavelength.values).reshape(n, nf)
+        ws = np.asarray(spec.wave_speed().values).reshape(n, nf)
+        cg = np.asarray(spec.group_velocity.values).reshape(n, nf)
+        inter = 0
+        for i in range(n):
+            d = [float(dep[i])] * nf
+            inter += check_elements(w, d, k2[i].tolist(), f"{stage}: spectrum point {i}")
+            check_cg(k2[i].tolist(), d, cg[i].tolist(), f"{stage}: spectrum point {i}")
+            for j in range(nf):
+                require(abs(wl[i, j] - 2 * np.pi / k2[i, j]) <= 1e-12 * wl[i, j], "wavelength",
+                        f"{stage}: point {i} f={f[j]}")
+                require(abs(ws[i, j] - w[j] / k2[i, j]) <= 1e-12 * ws[i, j], "wave_speed",
+                        f"{stage}: point {i} f={f[j]}")
+        return inter
+
     dep = np.where(np.isnan(a["depth"]), np.inf, a["depth"])
-    k = np.asarray(spec.wavenumber.values)
-    require(k.shape == tuple(shape) + (nf,), "wavenumber_shape", f"{k.shape} vs {tuple(shape) + (nf,)}")
-    k2 = k.reshape(a["n"], nf)
-    wl = np.asarray(spec.wavelength.values).reshape(a["n"], nf)
-    ws = np.asarray(spec.wave_speed().values).reshape(a["n"], nf)
-    cg = np.asarray(spec.group_velocity.values).reshape(a["n"], nf)
-    inter = 0
-    for i in range(a["n"]):
-        w = (2 * np.pi * f).tolist()
-        d = [float(dep[i])] * nf
-        inter += check_elements(w, d, k2[i].tolist(), f"spectrum point {i}")
-        check_cg(k2[i].tolist(), d, cg[i].tolist(), f"spectrum point {i}")
-        for j in range(nf):
-            require(abs(wl[i, j] - 2 * np.pi / k2[i, j]) <= 1e-12 * wl[i, j], "wavelength",
-                    f"point {i} f={f[j]}")
-            require(abs(ws[i, j] - w[j] / k2[i, j]) <= 1e-12 * ws[i, j], "wave_speed",
-                    f"point {i} f={f[j]}")
-    classes = ["layout_" + case["layout"], "spec_" + case["kind"]]
+    inter = verify(dep, "as built")
+    # the arrays are functions of the spectrum's CURRENT per-point depths: change the depths of the same object
+    # (item assignment, the documented way to fill in depths from a bathymetry look-up) and read again
+    old = np.asarray(a["depth"], dtype=float).reshape(-1)
+    fin = old[np.isfinite(old)]
+    how = int(fin.sum() * 1e3) % 3 if fin.size else 0
+    new = np.where(np.isfinite(old), np.clip(old * (0.31 if how != 1 else 3.3), 1e-2, 1e4), 7.0)
+    if how == 2 and n > 1:
+        new[0] = np.nan                       # a depth that becomes missing = deep water
+    dvar = spec.dataset["depth"]
+    if how == 1:
+        spec.dataset["depth"] = (dvar.dims, new.reshape(dvar.shape))
+    else:
+        spec["depth"] = (dvar.dims, new.reshape(dvar.shape))
+    inter += verify(np.where(np.isnan(new), np.inf, new), "after the depths of the same object were reassigned")
+    classes = ["layout_" + case["layout"], "spec_" + case["kind"], "depth_reassigned"]
     if np.isnan(a["depth"]).any():
         classes.append("nan_depth")
     if len(set(dep.tolist())) > 1:
